@@ -278,6 +278,14 @@ def compare(I, op, a, b, node):
         return {ast.Lt: a < b, ast.LtE: a <= b, ast.Gt: a > b, ast.GtE: a >= b}[type(op)]
     if isinstance(a, str) and isinstance(b, str):
         return {ast.Lt: a < b, ast.LtE: a <= b, ast.Gt: a > b, ast.GtE: a >= b}[type(op)]
+    if isinstance(a, tuple) and isinstance(b, tuple):
+        for x, y in zip(a, b):          # lexicographic, deciding equality of the components along the path
+            if not I.ctx.branch(py_eq(I, x, y)):
+                return compare(I, op, x, y, node)
+        return {ast.Lt: len(a) < len(b), ast.LtE: len(a) <= len(b), ast.Gt: len(a) > len(b), ast.GtE: len(a) >= len(b)}[type(op)]
+    if ka == "str" and kb == "str":
+        x, y = mk_str(a), mk_str(b)
+        return {ast.Lt: x < y, ast.LtE: x <= y, ast.Gt: y < x, ast.GtE: y <= x}[type(op)]
     if isinstance(a, SObj) and isinstance(a.cls, ClassInfo):
         name = {ast.Lt: "__lt__", ast.LtE: "__le__", ast.Gt: "__gt__", ast.GtE: "__ge__"}[type(op)]
         m = a.cls.find_method(name)
@@ -995,6 +1003,15 @@ class SymDict:
 
     def has_key(self, I, k):
         raise OutsideSubset("SymDict")
+
+
+def dict_sort():
+    return z3.DeclareSort("Dict")
+
+
+def dict_merge(a, b):
+    """{**a, **b}: right-biased merge of abstract mappings"""
+    return z3.Function("dict.merge", dict_sort(), dict_sort(), dict_sort())(a, b)
 
 
 class CtxHandle:
